@@ -92,6 +92,13 @@ pub enum ImportOp {
     Again(u16),
     /// import a removed frame back
     Back(u16),
+    /// import a different frame under the id of a frame that is gone (the id is free)
+    Reuse {
+        target: u16,
+        topic: String,
+        ctx: CtxSel,
+        ttl: Option<WTtl>,
+    },
     /// a registration frame (`xs.context`); `zero` = in the zero context
     Reg { pos: PosSel, zero: bool, adjacent: Option<u8>, ttl: Option<WTtl> },
     Nul { topic: String, pos: PosSel },
@@ -169,6 +176,7 @@ impl Op {
             Op::Import(ImportOp::Fresh { .. }) => "import",
             Op::Import(ImportOp::Again(_)) => "import-again",
             Op::Import(ImportOp::Back(_)) => "import-back",
+            Op::Import(ImportOp::Reuse { .. }) => "import-reuse-id",
             Op::Import(ImportOp::Reg { .. }) => "import-reg",
             Op::Import(ImportOp::Nul { .. }) => "import-nul",
             Op::Remove(_) => "remove",
@@ -393,6 +401,20 @@ pub fn profile(name: &str) -> Profile {
             w_get: 8,
             ..base
         },
+        "C12" => Profile {
+            name: "C12",
+            max_ops: 20,
+            w_append: 30,
+            w_import: 20,
+            w_read: 10,
+            w_get: 10,
+            w_reopen: 6,
+            w_remove: 3,
+            w_clock: 1,
+            w_head: 2,
+            small_mem_pct: 5,
+            ..base
+        },
         "C13" => Profile {
             name: "C13",
             topics: TopicMode::HttpSafe,
@@ -507,6 +529,8 @@ pub fn op_strategy(p: &Profile) -> BoxedStrategy<Op> {
             .prop_map(|(topic, ctx, ttl, meta, hash, pos)| ImportOp::Fresh { topic, ctx, ttl, meta, hash, pos }),
         2 => any::<u16>().prop_map(ImportOp::Again),
         3 => any::<u16>().prop_map(ImportOp::Back),
+        3 => (any::<u16>(), topic_of(p), ctx_sel(p), ttl_persistent())
+            .prop_map(|(target, topic, ctx, ttl)| ImportOp::Reuse { target, topic, ctx, ttl }),
         1 => (topic_nul(), pos_sel()).prop_map(|(topic, pos)| ImportOp::Nul { topic, pos }),
     ]
     .prop_map(Op::Import);
@@ -514,7 +538,12 @@ pub fn op_strategy(p: &Profile) -> BoxedStrategy<Op> {
         pos_sel(),
         prop_oneof![9 => Just(true), 1 => Just(false)],
         proptest::option::weighted(0.4, 0u8..4),
-        prop_oneof![3 => Just(None), 2 => Just(Some(WTtl::Forever)), 1 => Just(Some(WTtl::Head(1)))],
+        prop_oneof![
+            3 => Just(None),
+            2 => Just(Some(WTtl::Forever)),
+            1 => Just(Some(WTtl::Head(1))),
+            2 => proptest::sample::select(vec![0u64, 1000, 60_000]).prop_map(|n| Some(WTtl::Time(n))),
+        ],
     )
         .prop_map(|(pos, zero, adjacent, ttl)| {
             Op::Import(ImportOp::Reg {
@@ -558,7 +587,7 @@ pub fn op_strategy(p: &Profile) -> BoxedStrategy<Op> {
         ctx_sel(p),
     )
         .prop_map(|(topic, ctx)| Op::Head { topic, ctx });
-    proptest::strategy::Union::new_weighted(vec![
+    let weighted: Vec<(u32, BoxedStrategy<Op>)> = vec![
         (p.w_append, append.boxed()),
         (p.w_nul, nul.boxed()),
         (p.w_register, register.boxed()),
@@ -573,8 +602,9 @@ pub fn op_strategy(p: &Profile) -> BoxedStrategy<Op> {
         (p.w_get, get.boxed()),
         (p.w_head, head.boxed()),
         (p.w_bad, bad_req(p).prop_map(Op::Bad).boxed()),
-    ])
-    .boxed()
+    ];
+    proptest::strategy::Union::new_weighted(weighted.into_iter().filter(|(w, _)| *w > 0).collect())
+        .boxed()
 }
 
 pub fn bad_req(_p: &Profile) -> BoxedStrategy<BadReq> {
@@ -708,12 +738,12 @@ pub struct Interp {
     pub http_errors_seen: u32,
 }
 
-fn infra(msg: impl std::fmt::Display) -> Fail {
+pub fn infra(msg: impl std::fmt::Display) -> Fail {
     Fail::new(Class::Panic, format!("{INFRA} {msg}"))
 }
 
 /// map an executor error on an operation that must not fail
-fn must<T>(what: &str, r: XResult<T>) -> Result<T, Fail> {
+pub fn must<T>(what: &str, r: XResult<T>) -> Result<T, Fail> {
     match r {
         Ok(v) => Ok(v),
         Err(ExecErr::Err(e)) => Err(Fail::new(
@@ -728,7 +758,7 @@ fn must<T>(what: &str, r: XResult<T>) -> Result<T, Fail> {
     }
 }
 
-fn bogus_ctx(k: u8) -> u128 {
+pub fn bogus_ctx(k: u8) -> u128 {
     // never-registered ids: small numbers and an id-shaped value
     match k % 4 {
         0 => 1,
@@ -892,10 +922,13 @@ impl Interp {
             }
             CtxSel::Bogus(k) => bogus_ctx(*k),
             CtxSel::FrameId(s) => {
+                // ids that are frames but not (or no longer) usable contexts: ordinary
+                // frames, registration frames stored outside the zero context,
+                // removed registrations
                 let non_reg: Vec<u128> = self
                     .known
                     .iter()
-                    .filter(|k| k.spec.topic != "xs.context")
+                    .filter(|k| self.model.usable(k.id) != Some(true))
                     .map(|k| k.id)
                     .collect();
                 pick(*s, non_reg.len())
@@ -966,7 +999,7 @@ impl Interp {
         self.topics_used.insert(t.to_string());
     }
 
-    fn do_append(&mut self, spec: FrameSpec, content: Option<Vec<u8>>) -> Result<Option<WFrame>, Fail> {
+    pub fn do_append(&mut self, spec: FrameSpec, content: Option<Vec<u8>>) -> Result<Option<WFrame>, Fail> {
         let mut spec = spec;
         if let Some(c) = &content {
             // the hash xs must report is computed here, independently
@@ -1068,7 +1101,7 @@ impl Interp {
         }
     }
 
-    fn do_import(&mut self, spec: FrameSpec) -> Check {
+    pub fn do_import(&mut self, spec: FrameSpec) -> Check {
         let is_nul = spec.topic.as_bytes().contains(&0);
         let id = spec.id.unwrap();
         let res = if self.use_http(None) {
@@ -1144,7 +1177,7 @@ impl Interp {
         }
     }
 
-    fn stream_read(
+    pub fn stream_read(
         &mut self,
         path: ReadPath,
         ctx: Option<u128>,
@@ -1203,7 +1236,7 @@ impl Interp {
         Ok(res)
     }
 
-    fn drain(&mut self) -> Check {
+    pub fn drain(&mut self) -> Check {
         must("wait_for_gc", self.ex().gc())?;
         let before: BTreeMap<u128, (u128, String)> = self
             .model
@@ -1711,10 +1744,36 @@ impl Interp {
                         if spec.ttl == Some(WTtl::Ephemeral) {
                             return Ok(());
                         }
-                        if spec.topic == "xs.context" && matches!(spec.ttl, Some(WTtl::Time(_))) {
-                            self.flags.excluded_time_reg_import += 1;
-                            return Ok(());
-                        }
+                        self.do_import(spec)?;
+                    }
+                }
+                ImportOp::Reuse {
+                    target,
+                    topic,
+                    ctx,
+                    ttl,
+                } => {
+                    if topic == "xs.context" {
+                        return Ok(());
+                    }
+                    // only ids that are certainly free (explicitly removed, evicted or
+                    // collected), never ones whose fate is still open
+                    let free: Vec<u128> = self
+                        .known
+                        .iter()
+                        .filter(|k| !self.model.frames.contains_key(&k.id) && self.model.gone.contains_key(&k.id))
+                        .filter(|k| k.spec.topic != "xs.context")
+                        .map(|k| k.id)
+                        .collect();
+                    if let Some(i) = pick(*target, free.len()) {
+                        let spec = FrameSpec {
+                            topic: topic.clone(),
+                            ctx: self.resolve_ctx(ctx),
+                            id: Some(free[i]),
+                            hash: None,
+                            meta: None,
+                            ttl: ttl.clone(),
+                        };
                         self.do_import(spec)?;
                     }
                 }
@@ -1876,6 +1935,35 @@ impl Interp {
             e.kill();
         }
     }
+
+    pub fn finish_ref(&mut self) {
+        if let Some(e) = self.exec.take() {
+            e.kill();
+        }
+    }
+}
+
+/// Run the ops of a history and settle; the interpreter (executor still running)
+/// is handed back for further use (C20 exports from it).
+pub fn run_history_keep(case: &HistCase) -> Result<Interp, Fail> {
+    let mut it = Interp::start_with(case.layout, case.follower, case.access)?;
+    must("clock", it.ex().clock(Some(0)))?;
+    for _ in 0..case.n_ctx {
+        it.step(&Op::Register { ttl: None })?;
+    }
+    for (i, op) in case.ops.iter().enumerate() {
+        if let Err(mut f) = it.step(op) {
+            f.msg = format!("source op #{i} {}: {}", op.kind(), f.msg);
+            it.finish_ref();
+            return Err(f);
+        }
+    }
+    if let Err(mut f) = it.observe_all("source") {
+        f.msg = format!("source observation: {}", f.msg);
+        it.finish_ref();
+        return Err(f);
+    }
+    Ok(it)
 }
 
 /// Run one generated history. `Ok(info)` = every oracle held.
